@@ -74,8 +74,18 @@ def compare(ctx: Ctx, rule: str, key: str, where: str, r: dict[str, Any], ref: A
 
 
 # ---- FeatureIDE ---------------------------------------------------------------------------------
+def fide_rule(n: AObj) -> str:
+    """A constraint tree as a FeatureIDE rule body (binary conj / disj / imp / eq, not, var)."""
+    d = n._f["data"]
+    if isinstance(d, str):
+        return f"<var>{d}</var>"
+    tag = {"AND": "conj", "OR": "disj", "IMPLIES": "imp", "REQUIRES": "imp", "EQUIVALENCE": "eq", "NOT": "not"}[d.name]
+    inner = "".join(fide_rule(c) for c in (n._f["left"], n._f["right"]) if c is not None)
+    return f"<{tag}>{inner}</{tag}>"
+
+
 def fide_doc(ref: AObj, explicit_false: bool, graphics: bool, attr_order: bool, with_constraints: bool = True,
-             description: bool = False, group_flags: bool = False) -> str:
+             description: bool = False, group_flags: bool = False, rules: Optional[list[str]] = None) -> str:
     """group_flags: FeatureIDE keeps the `mandatory` attribute on children of <or>/<alt> elements,
     where it has no meaning (the group decides): such children still belong to the group only."""
     def attrs(f: AObj, mandatory: Optional[bool]) -> str:
@@ -123,7 +133,11 @@ def fide_doc(ref: AObj, explicit_false: bool, graphics: bool, attr_order: bool, 
     lines.append("\t<struct>")
     lines.extend(el(ref._f["root"], None, 2))
     lines.append("\t</struct>")
-    if with_constraints:
+    if rules is not None:
+        lines.append("\t<constraints>")
+        lines.extend(f"\t\t<rule>{r_}</rule>" for r_ in rules)
+        lines.append("\t</constraints>")
+    elif with_constraints:
         lines.append("\t<constraints>")
         lines.append("\t\t<rule>" + ('<graphics key="x" value="y"/>' if graphics else "") +
                      "<imp><var>Card</var><var>Security</var></imp></rule>")
@@ -226,7 +240,7 @@ def featureide(pm: ProgramModel, ctx: Ctx, mb: ModelBuilder) -> None:
 
 # ---- FaMa XML --------------------------------------------------------------------------------------
 def fama_doc(ref: AObj, ctc_first: bool = False, extra: bool = False, card_after: bool = False,
-             many_ctcs: bool = False) -> str:
+             many_ctcs: bool = False, ctc_lines: Optional[list[str]] = None) -> str:
     cnt = itertools.count(1)
 
     def feat(f: AObj, tag: str, depth: int) -> list[str]:
@@ -261,6 +275,8 @@ def fama_doc(ref: AObj, ctc_first: bool = False, extra: bool = False, card_after
                  '\t<requires name="C4" feature="Security" requires="Card"/>',
                  '\t<requires name="C5" feature="Coin" requires="Advanced"/>',
                  '\t<requires name="C6" feature="Card" requires="Security"/>']
+    if ctc_lines is not None:
+        ctcs = ctc_lines
     lines = ['<?xml version="1.0" encoding="UTF-8" ?>', "<feature-model>"]
     if extra:
         lines.append("\t<description>demo</description>")
@@ -312,7 +328,7 @@ def fama(pm: ProgramModel, ctx: Ctx, mb: ModelBuilder) -> None:
 
 
 # ---- Glencoe ----------------------------------------------------------------------------------------
-def glencoe_doc(ref: AObj, with_note: bool = True, ctcs: bool = True) -> dict[str, Any]:
+def glencoe_doc(ref: AObj, with_note: bool = True, ctcs: bool = True, trees: Optional[list[AObj]] = None) -> dict[str, Any]:
     feats: dict[str, Any] = {}
     ids: dict[int, str] = {}
     for i, f in enumerate(_all(ref._f["root"])):
@@ -352,7 +368,17 @@ def glencoe_doc(ref: AObj, with_note: bool = True, ctcs: bool = True) -> dict[st
     name_id = {f._f["name"]: ids[id(f)] for f in _all(ref._f["root"])}
     ft = lambda nme: {"type": "FeatureTerm", "operands": [name_id[nme]]}  # noqa: E731
     cs = {"C1": {"type": "ImpliesTerm", "operands": [ft("Card"), ft("Security")]},
-          "C2": {"type": "ExcludesTerm", "operands": [ft("Coin"), ft("Advanced")]}} if ctcs else {}
+          "C2": {"type": "ExcludesTerm", "operands": [ft("Coin"), ft("Advanced")]}} if ctcs and trees is None else {}
+
+    def term(n: AObj) -> dict[str, Any]:
+        d = n._f["data"]
+        if isinstance(d, str):
+            return ft(d)
+        t = {"AND": "AndTerm", "OR": "OrTerm", "IMPLIES": "ImpliesTerm", "REQUIRES": "ImpliesTerm", "EXCLUDES": "ExcludesTerm",
+             "EQUIVALENCE": "EquivalentTerm", "NOT": "NotTerm", "XOR": "XorTerm"}[d.name]
+        return {"type": t, "operands": [term(c) for c in (n._f["left"], n._f["right"]) if c is not None]}
+    for i, t_ in enumerate(trees or []):
+        cs[f"K{i + 1}"] = term(t_)
     return {"id": "m", "name": "m", "features": feats, "tree": tree(ref._f["root"]), "constraints": cs}
 
 
@@ -495,6 +521,102 @@ def afm(pm: ProgramModel, ctx: Ctx, mb: ModelBuilder) -> None:
                   bad=f"AFM relational constraint: {r['raise'][0] if r['raise'] else 'a model is returned'}")
 
 
+def large_documents(pm: ProgramModel, ctx: Ctx, mb: ModelBuilder) -> None:
+    """Larger third-party documents (twelve siblings and twelve-member groups, two-digit bounds, twelve levels, thirteen
+    rules with six-operand chains and nesting depth five, long names) through the same reference emitters."""
+    from ..codec import large_models
+    roots = lambda m: [c._f["_ast"]._f["root"] for c in m._f["ctcs"]]  # noqa: E731
+    wf = loc(pm.cls("FeatureIDEReader").unit.path, pm.cls("FeatureIDEReader").node)
+    for key, m, what, _ in large_models(mb, ("AND", "OR", "IMPLIES", "EQUIVALENCE"), mixed=False, cardinal=False):
+        doc = fide_doc(m, False, False, False, rules=[fide_rule(t) for t in roots(m)])
+        compare(ctx, "C09-FIDE", f"large:{key}", wf, read(pm, "FeatureIDEReader", doc.encode("utf8")), m,
+                f"FeatureIDE document ({what})")
+    wx = loc(pm.cls("XMLReader").unit.path, pm.cls("XMLReader").node)
+    for key, m, what, _ in large_models(mb, ("REQUIRES", "EXCLUDES")):
+        lines, kept = [], []
+        for c in m._f["ctcs"]:
+            t = c._f["_ast"]._f["root"]
+            l_, r_ = t._f["left"], t._f["right"]
+            if t._f["data"].name in ("REQUIRES", "EXCLUDES") and isinstance(l_._f["data"], str) and isinstance(r_._f["data"], str):
+                tag = t._f["data"].name.lower()
+                lines.append(f'\t<{tag} name="{c._f["name"]}" feature="{l_._f["data"]}" {tag}="{r_._f["data"]}"/>')
+                kept.append(c)
+        m._f["ctcs"] = kept                       # FaMa XML carries requires / excludes between two features only
+        doc = fama_doc(m, ctc_lines=lines)
+        compare(ctx, "C09-FAMA", f"large:{key}", wx, read(pm, "XMLReader", doc.encode("utf8")), m,
+                f"FaMa XML document ({what})", sem=False, names=True)
+    wg = loc(pm.cls("GlencoeReader").unit.path, pm.cls("GlencoeReader").node)
+    for key, m, what, _ in large_models(mb, ("AND", "OR", "IMPLIES", "EQUIVALENCE", "EXCLUDES"), mixed=False):
+        doc = glencoe_doc(m, trees=roots(m))
+        compare(ctx, "C09-GLENCOE", f"large:{key}", wg, read(pm, "GlencoeReader", json.dumps(doc)), m,
+                f"Glencoe document ({what})")
+    wa = loc(pm.cls("AFMReader").unit.path, pm.cls("AFMReader").node)
+    with Console():
+        for key, m, what, _ in large_models(mb, ("AND", "OR", "IMPLIES", "EQUIVALENCE", "REQUIRES", "EXCLUDES"),
+                                            rename=lambda s_: (s_[0].upper() + s_[1:]).replace("_", "")):
+            compare(ctx, "C09-AFM", f"large:{key}", wa, read(pm, "AFMReader", afm_doc(m)), m, f"AFM document ({what})")
+
+
+def nary_sweep(pm: ProgramModel, ctx: Ctx, mb: ModelBuilder) -> None:
+    """n-ary terms with 2..13 operands (both parities, more than a power of two, two digits): every operand is kept."""
+    wf = loc(pm.cls("FeatureIDEReader").unit.path, pm.cls("FeatureIDEReader").node)
+    wg = loc(pm.cls("GlencoeReader").unit.path, pm.cls("GlencoeReader").node)
+    nn, o = mb.node, mb.op
+    for k in range(2, 14):
+        names = [f"N{i:02d}" for i in range(k)]
+
+        def model(opn: str) -> AObj:
+            root = mb.feature("R")
+            for nm in names:
+                mb.relation(root, [mb.feature(nm)], 0, 1)
+            cur = nn(names[0])
+            for nm in names[1:]:
+                cur = nn(o(opn), cur, nn(nm))
+            return mb.model(root, [mb.constraint("1", cur)])
+        for opn, tag in (("AND", "conj"), ("OR", "disj")):
+            refm = model(opn)
+            doc = ('<featureModel><struct><and name="R">' + "".join(f'<feature name="{x}"/>' for x in names) +
+                   f"</and></struct><constraints><rule><{tag}>" + "".join(f"<var>{x}</var>" for x in names) +
+                   f"</{tag}></rule></constraints></featureModel>")
+            compare(ctx, "C09-FOLD", f"fide-nary:{tag}:{k}-operands", wf, read(pm, "FeatureIDEReader", doc.encode("utf8")), refm,
+                    f"FeatureIDE <{tag}> rule with {k} operands")
+        for opn, term in (("AND", "AndTerm"), ("OR", "OrTerm")):
+            refm = model(opn)
+            doc = glencoe_doc(refm, trees=[])
+            ids = {v["name"]: k_ for k_, v in doc["features"].items()}
+            doc["constraints"] = {"K1": {"type": term, "operands": [{"type": "FeatureTerm", "operands": [ids[x]]} for x in names]}}
+            compare(ctx, "C09-FOLD", f"glencoe-nary:{term}:{k}-operands", wg, read(pm, "GlencoeReader", json.dumps(doc)), refm,
+                    f"Glencoe {term} with {k} operands")
+
+
+def afm_doc(m: AObj) -> str:
+    """AFM text of a model: one line per parent (`P: M [O] [a,b]{X Y};`), fully parenthesised constraints."""
+    lines = ["%Relationships"]
+    for f in _all(m._f["root"]):
+        parts = []
+        for r in f._f["relations"]:
+            kids = [c._f["name"] for c in r._f["children"]]
+            lo, hi = r._f["card_min"], r._f["card_max"]
+            if len(kids) == 1:
+                parts.append(kids[0] if lo == 1 else f"[{kids[0]}]")
+            else:
+                parts.append(f"[{lo},{hi}]{{{' '.join(kids)}}}")
+        if parts:
+            lines.append(f"{f._f['name']}: {' '.join(parts)};")
+
+    def ex(n: AObj) -> str:
+        d = n._f["data"]
+        if isinstance(d, str):
+            return d
+        if d.name == "NOT":
+            return f"NOT ({ex(n._f['left'])})"
+        word = {"AND": "AND", "OR": "OR", "IMPLIES": "IMPLIES", "EQUIVALENCE": "IFF", "REQUIRES": "REQUIRES",
+                "EXCLUDES": "EXCLUDES"}[d.name]
+        return f"({ex(n._f['left'])}) {word} ({ex(n._f['right'])})"
+    lines += ["%Attributes", "%Constraints"] + [ex(c._f["_ast"]._f["root"]) + ";" for c in m._f["ctcs"]]
+    return "\n".join(lines) + "\n"
+
+
 def check(pm: ProgramModel, ctx: Ctx) -> None:
     ctx.explanation = (
         "The four readers' transform() are evaluated from source on documents written by "
@@ -515,4 +637,6 @@ def check(pm: ProgramModel, ctx: Ctx) -> None:
     fama(pm, ctx, mb)
     glencoe(pm, ctx, mb)
     afm(pm, ctx, mb)
+    large_documents(pm, ctx, mb)
+    nary_sweep(pm, ctx, mb)
     ctx.floor("C09", "obligations", len(ctx.obligations), 30)
